@@ -117,6 +117,16 @@ CmdResult Exec::cmd(const CmdSpec& spec, bool run_monitors)
 	CmdResult r = sb.run(spec);
 	last = r;
 	last_spec = spec;
+	if (getenv("SNAPSIM_DEBUG")) {
+		fprintf(stderr, "=== [%u] %s\n    exit=%d sig=%d killed=%d mut=%u io=%u threads=%u\n", sb.cmd_index - 1, r.argv_line.c_str(), r.exit_code, r.term_sig, (int)r.sim_killed, r.info.mut_count, r.info.io_count, r.info.threads_created);
+		if (!r.err.empty()) fprintf(stderr, "--- stderr\n%s", r.err.c_str());
+		if (atoi(getenv("SNAPSIM_DEBUG")) >= 2) fprintf(stderr, "--- stdout\n%s", r.out.c_str());
+		if (atoi(getenv("SNAPSIM_DEBUG")) >= 3) {
+			for (auto& line : split(r.log, '\n'))
+				if (!starts_with(line, "msg:") && !starts_with(line, "memory:") && !starts_with(line, "uuid:") && !starts_with(line, "statfs:") && !line.empty()) fprintf(stderr, "  log| %s\n", line.c_str());
+		}
+		if (atoi(getenv("SNAPSIM_DEBUG")) >= 4) fprintf(stderr, "%s", trace_digest_text(r, 100000).c_str());
+	}
 	++out.commands;
 	out.decisions += r.info.decisions;
 	if (r.info.decisions) out.interleavings.insert(r.info.decision_hash);
@@ -514,7 +524,7 @@ CmdSpec gen_sched(Rng& rng, CmdSpec s)
 	case 0: case 1: case 2: s.policy = SP_RANDOM; break;
 	case 3: s.policy = SP_PCT; s.policy_param = (int)rng.range(1, 3); break;
 	case 4: s.policy = SP_RR; s.policy_param = (int)rng.range(1, 12); break;
-	case 5: s.policy = SP_STARVE; s.policy_param = (int)rng.below(16); break;
+	case 5: s.policy = SP_STARVE; s.policy_param = rng.chance(1, 2) ? (int)rng.below(16) : 100 + (int)rng.below(8); break;
 	case 6: s.policy = rng.chance(1, 2) ? SP_MAIN_FIRST : SP_MAIN_LAST; break;
 	default: s.policy = SP_FIFO; break;
 	}
